@@ -89,6 +89,7 @@ func worker(args []string) int {
 		fmt.Fprintln(os.Stderr, "unknown property", *propID)
 		return 2
 	}
+	props.SetTier(*tier)
 	start := time.Now()
 	wo := &WorkerOut{Prop: p.ID, Faults: map[string]int{}, Probes: map[string]int{}}
 	shapes := map[string]bool{}
@@ -211,6 +212,7 @@ func (kf KnownFile) match(v *core.Violation) *KnownFinding {
 }
 
 type ReplayFile struct {
+	Tier        string          `json:"tier"`
 	Property    string          `json:"property"`
 	Engine      string          `json:"engine"`
 	Oracle      string          `json:"oracle"`
@@ -255,6 +257,7 @@ func driver(args []string) int {
 			seed = uint64(v)
 		}
 	}
+	props.SetTier(*tier)
 	nw := *workers
 	if nw <= 0 {
 		nw = runtime.NumCPU()
@@ -371,7 +374,7 @@ func driver(args []string) int {
 		if si >= 8 {
 			break
 		}
-		rf := ReplayFile{Property: p.ID, Engine: p.Engine, Oracle: f.Viol.Oracle, Signature: sig, Seed: f.Seed, Go: runtime.Version(), OrigTapeLen: len(f.Tape), Violation: f.Viol}
+		rf := ReplayFile{Tier: *tier, Property: p.ID, Engine: p.Engine, Oracle: f.Viol.Oracle, Signature: sig, Seed: f.Seed, Go: runtime.Version(), OrigTapeLen: len(f.Tape), Violation: f.Viol}
 		min := f.Tape
 		if f.Viol.Oracle != "fatal" {
 			same := func(vals []uint64) bool {
@@ -502,6 +505,7 @@ func replay(args []string) int {
 		fmt.Fprintln(os.Stderr, "unknown property", rf.Property)
 		return 2
 	}
+	props.SetTier(rf.Tier)
 	tp := core.NewReplayTape(rf.Tape)
 	tp.Trace = true
 	r := execRun(p, tp, true)
